@@ -734,6 +734,9 @@ def synth_specs(assets, caps):
         S.append(("pe_exports_%d" % n, (lambda n=n: pe_with_exports(n)), "pe", "export_details", n))
     for n in around(c["MAX_RESOURCES"], c["MAX_RESOURCES"] + 900):
         S.append(("pe_resources_%d" % n, (lambda n=n: pe_with_resources(n)), "pe", "resources", n))
+    if "MAX_NB_VERSION_INFOS" in c:
+        for n in around(c["MAX_NB_VERSION_INFOS"], c["MAX_NB_VERSION_INFOS"] + 7232):
+            S.append(("pe_version_infos_%d" % n, (lambda n=n: pe_with_version_infos(n)), "pe", "version_info_list", n))
     signed = sorted(a for a in assets if "/pe/signed/" in a[0])
     if signed:
         sb = signed[0][1]
@@ -1378,3 +1381,80 @@ def all_call_rules(kind):
             out.append({"tag": "c%d" % len(out), "imports": sorted({m} | {x for x in ("hash", "math", "pe") if (x + ".") in cond}),
                         "cond": cond})
     return out
+
+
+def _version_blob(first, n):
+    """VS_VERSION_INFO with one StringFileInfo / one StringTable of n String entries (keys "%04s" base 36 starting at
+    `first`, value "v"): 20 bytes per entry; every length field is a u16, so n <= 3200"""
+    def w(s):
+        return s.encode("utf-16-le")
+    strings = bytearray()
+    for i in range(first, first + n):
+        k, x = "", i
+        for _ in range(4):
+            k = "0123456789abcdefghijklmnopqrstuvwxyz"[x % 36] + k
+            x //= 36
+        e = struct.pack("<HHH", 20, 1, 1) + w(k) + b"\0\0" + w("v") + b"\0\0"
+        strings += e
+    table = struct.pack("<HHH", 24 + len(strings), 0, 1) + w("040904b0") + b"\0\0" + bytes(strings)
+    sfi = struct.pack("<HHH", 36 + len(table), 0, 1) + w("StringFileInfo") + b"\0\0" + table
+    head = struct.pack("<HHH", 0, 52, 0) + w("VS_VERSION_INFO") + b"\0\0"
+    head += bytes(92 - len(head))
+    blob = bytearray(head + sfi)
+    struct.pack_into("<H", blob, 0, len(blob))
+    assert len(blob) <= 0xFFFF
+    return bytes(blob)
+
+
+def pe_with_version_infos(total):
+    """PE32 whose resource tree has one RT_VERSION type with one name and several language leaves, each pointing at its
+    own VS_VERSION_INFO block; the String entries of all leaves sum to `total` (distinct keys)"""
+    per = 3200
+    counts = [per] * (total // per) + ([total % per] if total % per else [])
+    k = len(counts)
+    tdir = 16 + 8
+    ndir = tdir + 16 + 8
+    data_entries = ndir + 16 + 8 * k
+    blobs_off = (data_entries + 16 * k + 15) & ~15
+    sec = bytearray(blobs_off)
+    struct.pack_into("<HH", sec, 12, 0, 1)
+    struct.pack_into("<II", sec, 16, 16, 0x80000000 | tdir)            # RT_VERSION
+    struct.pack_into("<HH", sec, tdir + 12, 0, 1)
+    struct.pack_into("<II", sec, tdir + 16, 1, 0x80000000 | ndir)
+    struct.pack_into("<HH", sec, ndir + 12, 0, k)
+    first = 0
+    for j, n in enumerate(counts):
+        blob = _version_blob(first, n)
+        first += n
+        off = len(sec)
+        sec += blob + bytes((-len(blob)) % 4)
+        struct.pack_into("<II", sec, ndir + 16 + 8 * j, 0x409 + j, data_entries + 16 * j)
+        struct.pack_into("<IIII", sec, data_entries + 16 * j, 0x1000 + off, len(blob), 0, 0)
+    return _pe32(bytes(sec), {2: (0x1000, len(sec))})
+
+
+COUNT_FIELD_RE = {
+    "pe": r"coff\.number_of_sections$|number_of_rva_and_sizes$|export\+(20|24)$|rsrc\+(12|14)$|md\.nstreams$|tbl\.rows\d+$|cert\.len$|coff\.size_opt$",
+    "elf": r"(phnum|shnum|phentsize|shentsize|shstrndx)$",
+    "macho": r"(ncmds|sizeofcmds|nfat_arch)$|lc\d+\(1\)\+48$|lc\d+\(19\)\+64$",
+    "fat": r"(ncmds|sizeofcmds|nfat_arch)$|lc\d+\(1\)\+48$|lc\d+\(19\)\+64$",
+    "dex": r"hdr\+(56|64|72|80|88|96|104)$|map\+0$",
+}
+
+
+def count_field_sweep(b, kind, cache_key=None, cache=None):
+    """every header field that announces *how many* entries a table has (sections, data directories, exported
+    functions / names, resource entries, metadata streams, metadata table rows, program / section headers, load
+    commands, sections of a segment, fat arches, dex id tables, map items) x values larger than what the file holds
+    (cur+1, cur+2, 2*cur+1, 2000, max) and 0.  Yields (what, edit)."""
+    F, _ = layout_of(b, kind)
+    rx = re.compile(COUNT_FIELD_RE.get(kind, r"$^"))
+    seen = set()
+    for off, size, name, be in F:
+        if not rx.search(name) or (off, size) in seen:
+            continue
+        seen.add((off, size))
+        cur = int.from_bytes(b[off:off + size], "big" if be else "little")
+        M = (1 << (8 * size)) - 1
+        for v in sorted(set(x for x in [0, cur + 1, cur + 2, 2 * cur + 1, 2000, M] if 0 <= x <= M and x != cur)):
+            yield ("%s=%d" % (name, v), {"op": "set", "off": off, "hex": enc(v, size, be)})
